@@ -81,6 +81,23 @@ def documents(draw, max_params=8, chart_doc=False):
                 segs.append(["blank", draw(st.sampled_from(BLANK))])
             elif kind == 3:
                 segs.append(["comment", "// hi #X:y;\n"])
+    extra = draw(st.integers(0, 15))
+    if extra == 0 and terminated:
+        # a very long component with an escaped metacharacter exactly on / next to a multiple of 4096 (up to 65536)
+        k = draw(st.sampled_from([1, 1, 2, 4, 16, 16]))
+        back = draw(st.integers(-2, 5))
+        tok = draw(st.sampled_from(["\\//", "\\//", "\\:", "\\;", "\\\\", "\\//x"]))
+        key = draw(st.sampled_from(["BANNER", "BGCHANGES", "NOTES2", "FOO"]))
+        segs.append(["param", "#" + key + ":" + "x" * max(0, k * 4096 - back) + tok + draw(st.sampled_from(["", "y", "tail"])) + ";\n"])
+    elif extra == 1 and terminated:
+        # the same colon-containing value under a multi-value key first and under an ordinary key later
+        a, b = draw(st.sampled_from([("120", "240"), ("a", "b"), ("TIME=1", "LEN=2"), ("", "x")]))
+        mk = draw(st.sampled_from(["DISPLAYBPM", "ATTACKS", "displaybpm"]))
+        ok = draw(st.sampled_from(["SUBTITLE", "GENRE", "CHARTNAME", "FOO"]))
+        segs.append(["param", f"#{mk}:{a}:{b};\n"])
+        if draw(st.booleans()):
+            segs.append(["param", "#MID:1;\n"])
+        segs.append(["param", f"#{ok}:{a}\\:{b};\n"])
     return {"segs": segs}
 
 
